@@ -93,7 +93,7 @@ func checkOutboundFlows(r *Result, prop string) []Violation {
 				u := get(id)
 				pid := uint16(e.N)
 				if old := u[pid]; old != nil && old.payload != payload && prop == "C10" {
-					out = append(out, viol("C10", "packet-id-reused-while-unacked", fmt.Sprintf("session %q: packet id %d assigned to %q while %q is still unacknowledged under the same id", id, pid, payload, old.payload), e.Seq))
+					out = append(out, viol("C10", "packet-id-reused-while-unacked", fmt.Sprintf("session %q: packet id %d assigned to %q while %q is still unacknowledged under the same id", id, pid, payload, old.payload), e.Seq, "client_used_same_id", fmt.Sprint(old.collided), "rm_limited", sessRMLimited(r, id, e.Seq)))
 				}
 				if old := u[pid]; old == nil || old.payload != payload {
 					u[pid] = &outMsg{pid: pid, payload: payload, stage: 1, seq: e.Seq}
@@ -391,7 +391,15 @@ func checkC10(r *Result) []Violation {
 				p := it.pr.P
 				if p.Type == refcodec.PUBLISH && p.Qos > 0 {
 					if prev, ok := outstanding[p.PacketID]; ok && prev != payloadIDOf(p.Payload) {
-						out = append(out, viol("C10", "duplicate-outbound-id-on-wire", fmt.Sprintf("conn %d: PUBLISH %q uses packet id %d which is still unacknowledged for %q", c.Idx, payloadIDOf(p.Payload), p.PacketID, prev), it.pr.Seq))
+						// did the client use the same identifier for a publish of its own in between (the broker keeps
+						// both directions in one map, a known defect), or is the identifier simply handed out twice?
+						same := "false"
+						for _, e := range r.H.Evs {
+							if e.Kind == "in" && e.Last && e.Conn == c.Idx && e.Pkt != nil && e.Pkt.Type == refcodec.PUBLISH && e.Pkt.Qos > 0 && e.Pkt.PacketID == p.PacketID && e.Seq < it.pr.Seq {
+								same = "true"
+							}
+						}
+						out = append(out, viol("C10", "duplicate-outbound-id-on-wire", fmt.Sprintf("conn %d: PUBLISH %q uses packet id %d which is still unacknowledged for %q", c.Idx, payloadIDOf(p.Payload), p.PacketID, prev), it.pr.Seq, "client_used_same_id", same, "rm_limited", sessRMLimited(r, sessIDOfConn(c), it.pr.Seq)))
 					}
 					outstanding[p.PacketID] = payloadIDOf(p.Payload)
 				}
